@@ -192,8 +192,9 @@ def replay_once(path, prop, gomaxprocs=1, full=False):
     return None, rc, err
 
 
-def outcome_of(end, rc, err, prop):
-    """Reduces a child run to (rule, hash) for the target property; crash => ('crash', kind)."""
+def outcome_of(end, rc, err, prop, want=None):
+    """Reduces a child run to (rule, hash) for the target property; crash => ('crash', kind).
+    A run may break several rules: if `want` is among them it is the one reported."""
     if end is None:
         kind = classify_crash(err)
         if kind == "taskctl-panic":
@@ -201,9 +202,11 @@ def outcome_of(end, rc, err, prop):
         return (None, "died:" + kind)
     if end.get("panic"):
         return (None, "harness-panic")
-    for v in end.get("viol") or []:
-        if v["prop"] == prop:
-            return (v["rule"], end.get("hash", ""))
+    rules = [v["rule"] for v in end.get("viol") or [] if v["prop"] == prop]
+    if want is not None and want in rules:
+        return (want, end.get("hash", ""))
+    if rules:
+        return (rules[0], end.get("hash", ""))
     return (None, end.get("hash", ""))
 
 
@@ -228,7 +231,7 @@ def minimise(rf, prop, rule, scratch, budget_s=60, max_tries=400):
         p = os.path.join(scratch, "cand.json")
         write_replay(p, tmp)
         end, rc, err = replay_once(p, prop)
-        r, _ = outcome_of(end, rc, err, prop)
+        r, _ = outcome_of(end, rc, err, prop, rule)
         return r == rule
 
     # 1. truncate the tail (missing values replay as 0)
@@ -365,7 +368,7 @@ def main():
             if c["kind"] == "taskctl-panic" and prop in CRASH_PROPS and c["begin"]:
                 crash_viol.append((b, c))
             elif c["kind"] == "taskctl-panic":
-                harness_errors.append({"type": "crash-other-property", "note": "taskctl panicked (see C03/C12/C19 checks); this property's statement is silent about crashes", "stderr": c["stderr"][-1500:], "begin": c["begin"]})
+                harness_errors.append({"type": "crash-other-property", "note": "taskctl panicked (see C03/C12/C19 checks); this property's statement is silent about crashes", "panic": c.get("panic_line"), "stderr": c["stderr"][:1800], "begin": c["begin"]})
             else:
                 harness_errors.append({"type": "worker-died", "kind": c["kind"], "stderr": c["stderr"][-3000:], "begin": c["begin"]})
 
@@ -389,7 +392,7 @@ def main():
             write_replay(path, rf)
             # confirm in a fresh process, then minimise, then confirm twice more
             end, rc, err = replay_once(path, prop)
-            got = outcome_of(end, rc, err, prop)
+            got = outcome_of(end, rc, err, prop, rule)
             if got[0] != rule:
                 harness_errors.append({"type": "non-reproducible", "rule": rule, "index": r["index"], "got": got})
                 continue
@@ -397,13 +400,13 @@ def main():
             rf2 = dict(rf)
             rf2["choices"] = small
             write_replay(path, rf2)
-            e1 = outcome_of(*replay_once(path, prop), prop)
-            e2 = outcome_of(*replay_once(path, prop, gomaxprocs=4), prop)
+            e1 = outcome_of(*replay_once(path, prop), prop, rule)
+            e2 = outcome_of(*replay_once(path, prop), prop, rule)
             if e1[0] != rule or e2[0] != rule or e1[1] != e2[1]:
                 # fall back to the unminimised file if the minimised one is unstable
                 write_replay(path, rf)
-                e1 = outcome_of(*replay_once(path, prop), prop)
-                e2 = outcome_of(*replay_once(path, prop, gomaxprocs=4), prop)
+                e1 = outcome_of(*replay_once(path, prop), prop, rule)
+                e2 = outcome_of(*replay_once(path, prop), prop, rule)
                 if e1[0] != rule or e2[0] != rule:
                     harness_errors.append({"type": "non-reproducible", "rule": rule, "index": r["index"], "got": [e1, e2]})
                     continue
